@@ -33,6 +33,10 @@ var abiShapes = []struct {
 	{"chan", "", "chan ", 1},
 	{"func", "func", "", 1},
 	{"interface{}", "interface{}", "", 2},
+	// a named type is taken for an interface value (two words) whatever its
+	// name begins with: "mapper" is not a map, "channel" not a chan
+	{"named type mapper", "mapper", "", 2},
+	{"named type channel", "channel", "", 2},
 }
 
 func runAUG(c *Ctx) (obls []Obl) {
@@ -93,6 +97,14 @@ func runAUG(c *Ctx) (obls []Obl) {
 			}
 		}
 	}
+	// ... or pop is a function of its own (a method on the list type) that
+	// is handed the address of the list: *q = (*q)[1:]
+	staticPop := false
+	if popFn == nil {
+		if sp := augStaticPop(fn); sp != nil {
+			popFn, staticPop = sp, true
+		}
+	}
 	oneWord := map[*ssa.Function]bool{}
 	if popFn != nil {
 		oneWord[popFn] = true
@@ -112,6 +124,12 @@ func runAUG(c *Ctx) (obls []Obl) {
 								}
 							}
 						}
+						if staticPop && call.Call.StaticCallee() == popFn {
+							n++
+							if !dominatesAllReturns(call.Block(), af) {
+								n += 100
+							}
+						}
 					}
 				}
 			}
@@ -128,6 +146,7 @@ func runAUG(c *Ctx) (obls []Obl) {
 			}
 		}
 	}
+	augPopIsStatic = staticPop
 	if popFn == nil || popFmtFn == nil || popNameFn == nil || len(oneWord) != 3 {
 		a.und("AUG-words", "augmentCall/pop-helpers", "the helpers pop/popFmt/popName (each consuming exactly one word) were not recognised", fn.Pos())
 		return
@@ -205,6 +224,11 @@ func runAUG(c *Ctx) (obls []Obl) {
 			nPaths++
 			words := 0
 			for _, ev := range p.Events {
+				// a direct call of a stand-alone pop is executed in place:
+				// its effect is the store list = list[1:]
+				if staticPop && isPopStore(ev) {
+					words++
+				}
 				if ev.Kind != EvCall || ev.Val.Op != OpCall || ev.Val.Fn != nil {
 					continue
 				}
@@ -257,6 +281,7 @@ func augFmtHelpers(c *Ctx, a *flAgg, popFmt, popName *ssa.Function) {
 		x.Explore()
 		okAll := true
 		why := ""
+		nNil, nNamed, nTL := 0, 0, 0
 		for _, p := range x.Paths {
 			if p.Term != "return" || len(p.Results) != 1 {
 				continue
@@ -271,6 +296,15 @@ func augFmtHelpers(c *Ctx, a *flAgg, popFmt, popName *ssa.Function) {
 				switch {
 				case strings.HasSuffix(s, "() == nil)"):
 					isNil = lt.Pol
+				case augPopIsStatic && strings.HasPrefix(s, "(len(") && strings.HasSuffix(s, ") == 0)") && !strings.Contains(s, ".Name)"):
+					// the stand-alone pop, executed in place: an empty list gives nil
+					if lt.Pol {
+						isNil = true
+					}
+				case augPopIsStatic && strings.HasSuffix(s, "[0] == nil)"):
+					if lt.Pol {
+						isNil = true
+					}
 				case strings.HasSuffix(s, ".IsOffsetTooLarge"):
 					tooLarge, haveTL = lt.Pol, true
 				case strings.HasPrefix(s, "(len(") && strings.HasSuffix(s, ".Name) == 0)"):
@@ -278,6 +312,14 @@ func augFmtHelpers(c *Ctx, a *flAgg, popFmt, popName *ssa.Function) {
 				default:
 					okAll, why = false, "unexpected condition "+s
 				}
+			}
+			switch {
+			case isNil:
+				nNil++
+			case h.name == "popName" && haveNamed && named:
+				nNamed++
+			case haveTL && tooLarge:
+				nTL++
 			}
 			switch {
 			case isNil:
@@ -312,6 +354,19 @@ func augFmtHelpers(c *Ctx, a *flAgg, popFmt, popName *ssa.Function) {
 					okAll, why = false, "a pointer-like value is rendered as "+rs
 				}
 			}
+		}
+		// the three special renderings exist: the word list can run out
+		// (pop returns nil: a frame printed with fewer words than the
+		// declaration needs), a word can be the "_" placeholder, a pointer
+		// can carry a pseudo-name
+		switch {
+		case !okAll:
+		case nNil == 0:
+			okAll, why = false, "no path renders a missing argument (pop() == nil) as <nil>: the nil argument is dereferenced when the frame has fewer words than the declaration needs"
+		case nTL == 0:
+			okAll, why = false, "no path renders a too-large argument as _: its meaningless zero value is shown as if it had been passed"
+		case h.name == "popName" && nNamed == 0:
+			okAll, why = false, "no path shows the pseudo-name of a named pointer: the processed arguments lose the names the raw ones carry"
 		}
 		if h.name == "popFmt" {
 			if pf := h.f.Parent(); pf != nil {
@@ -519,6 +574,14 @@ func augName(c *Ctx, a *flAgg) {
 		guarded := false
 		for _, lt := range p.Lits {
 			s := lt.Atom.String()
+			if at := lt.Atom; at.calleeIs(stackPkg, "declMatches") && len(at.Args) == 3 {
+				// the name compared is the frame's function name without
+				// its package path (whose dots would add components)
+				if lt.Pol && strings.HasSuffix(at.Args[1].String(), ".Func.Name") && strings.HasSuffix(at.Args[2].String(), ".Name.Name") {
+					guarded = true
+				}
+				continue
+			}
 			if lt.Pol && strings.Contains(s, ".Func.Name") && strings.Contains(s, ".Name.Name") {
 				guarded = true
 			}
@@ -628,4 +691,58 @@ func augBases(a *flAgg, fn *ssa.Function) {
 			}
 		}
 	}
+}
+
+var augPopIsStatic bool
+
+// augStaticPop: a function of the package, outside the pinned vocabulary,
+// that removes the head of the list its first parameter points to
+// (*q = (*q)[1:]) and is called from fn or one of its closures.
+func augStaticPop(fn *ssa.Function) *ssa.Function {
+	cands := map[*ssa.Function]bool{}
+	for _, f := range append([]*ssa.Function{fn}, fn.AnonFuncs...) {
+		for _, b := range f.Blocks {
+			for _, in := range b.Instrs {
+				if call, ok := in.(*ssa.Call); ok {
+					if cal := call.Call.StaticCallee(); cal != nil && cal.Pkg == fn.Pkg && cal.Blocks != nil && defaultInline(cal) && len(cal.Params) >= 1 {
+						cands[cal] = true
+					}
+				}
+			}
+		}
+	}
+	var out *ssa.Function
+	for cal := range cands {
+		for _, b := range cal.Blocks {
+			for _, in := range b.Instrs {
+				st, ok := in.(*ssa.Store)
+				if !ok || st.Addr != ssa.Value(cal.Params[0]) {
+					continue
+				}
+				if sl, ok := st.Val.(*ssa.Slice); ok && sl.High == nil {
+					if lo, ok := bnConst(sl.Low); ok && lo == 1 {
+						if ld, ok := sl.X.(*ssa.UnOp); ok && ld.X == ssa.Value(cal.Params[0]) {
+							if out != nil && out != cal {
+								return nil
+							}
+							out = cal
+						}
+					}
+				}
+			}
+		}
+	}
+	return out
+}
+
+// isPopStore: store X = X[1:]
+func isPopStore(ev Event) bool {
+	if ev.Kind != EvStore || ev.Val == nil || ev.Val.Op != OpSlice || len(ev.Val.Args) != 4 || ev.Val.Args[1] == nil || ev.Val.Args[2] != nil {
+		return false
+	}
+	if k, isC := ev.Val.Args[1].intConst(); !isC || k != 1 {
+		return false
+	}
+	ad, _ := stripAddr(ev.Addr.String())
+	return ad == ev.Val.Args[0].String()
 }
